@@ -344,6 +344,7 @@ func lostFields(want proto.Message, rs []*spb.GetResponse, id string) string {
 
 // Run decides C07.
 func Run(rep *report.Report, tier string) {
+	guardRep = rep
 	outcomes := map[string]int{}
 	var mu sync.Mutex
 	evals := 0
@@ -550,6 +551,9 @@ func diffMaps(want, got map[string]string) string {
 	return strings.Join(out, "; ")
 }
 
+// guardRep receives a violation when a case panics (see report.Guard).
+var guardRep *report.Report
+
 func par(items []int, f func(int)) {
 	var wg sync.WaitGroup
 	ch := make(chan int)
@@ -558,7 +562,7 @@ func par(items []int, f func(int)) {
 		go func() {
 			defer wg.Done()
 			for i := range ch {
-				f(i)
+				guardRep.Guard(fmt.Sprintf("case %d", i), map[string]any{"case_index": i}, func() { f(i) })
 			}
 		}()
 	}
